@@ -126,3 +126,22 @@ class Check:
         print("RESULT property=%s tier=%s exit=%d queries=%d (unsat %d, sat %d, undecided %d) known=%d violations=%d wall=%.1fs" % (
             self.pid, self.tier, status, q["total"], q["unsat"], q["sat"], q["unknown"] + q["error"], len(self.known_hit), len(self.violations), wall), flush=True)
         return status
+
+
+# ---------------------------------------------------------------------------- parallel query construction
+_PB = {}
+
+
+def _pb_call(i):
+    return _PB["fn"](_PB["tasks"][i])
+
+
+def parallel_build(tasks, fn, workers=14):
+    """run fn(task) -> result in forked worker processes (fn and its globals, e.g. the parsed MIR, are inherited by fork)"""
+    import multiprocessing as mp
+    if not tasks:
+        return []
+    _PB["fn"], _PB["tasks"] = fn, tasks
+    ctx = mp.get_context("fork")
+    with ctx.Pool(min(workers, len(tasks))) as pool:
+        return pool.map(_pb_call, range(len(tasks)), chunksize=1)
